@@ -173,6 +173,11 @@ func TestEngineCalltree(t *testing.T) {
 			f.runTree(p, root, []*tnode{{kind: 1, target: tgt, rev: r.Chance(1, 5), kids: gen(r.Intn(3), tgt, true)}})
 			continue
 		}
+		if r.Chance(1, 6) { // [untouched action] ; [whole subtree reverted]: the oracle can observe "no trace"
+			tgt := 5 + r.Intn(2)
+			f.runTree(p, root, []*tnode{{kind: 0, target: tgt, rev: true, kids: gen(1+r.Intn(3), tgt, false)}})
+			continue
+		}
 		f.runTree(p, root, gen(1+r.Intn(4), root, false))
 	}
 }
@@ -226,8 +231,12 @@ func (f *ercFixture) runTree(p *hx.Proto, root int, body []*tnode) {
 	after := f.digest()
 	p.Emit(op, fmt.Sprintf("ok logs=%s ", logS)+after)
 	p.Count(fmt.Sprintf("tree:logs=%d", len(rc.Logs)))
+	// ---- oracle (C03): a tree that is one reverted frame must leave no trace ------------------------------
+	if len(body) == 1 && !body[0].pc && body[0].rev && (before != after || len(rc.Logs) != 0) {
+		p.Oracle("C03-reverted-frame-trace", "a reverted frame left a trace (balances, supply, allowances or logs differ): %s", op)
+	}
 	// ---- oracle (C12): a tree whose root frame is itself entered by STATICCALL must change nothing -------
-	if len(body) == 1 && !body[0].pc && body[0].kind == 1 {
+	if len(body) == 1 && !body[0].pc && body[0].kind == 1 && !body[0].rev {
 		if before != after || len(rc.Logs) != 0 {
 			var sw [][2]int
 			staticWrites(body[0].kids, true, false, &sw)
